@@ -234,6 +234,9 @@ def run(tier, replay=None):
     # the feature that selects this code must be reachable from the crate a user enables it on (manifest wiring)
     from .. import features
     features.check(rep)
+    # values built by the compile-time macros belong to this property's domain as well: the macro witnesses of C16 (cached per tree)
+    from . import c16
+    c16.witness_family(rep, tier)
     rep.explanation = ('Structural necessary conditions read from the MIR of the serde impls (feature serde): serialize = serialize_str(self.to_string()); deserialize hands a visitor that '
                        'overrides only string visits to deserialize_str/string/any; visit_str = parse::<LanguageIdentifier>(input).map_err(custom) on the unchanged input; FromStr = from_bytes. '
                        'Together with C02/C04/C05 (parser, printer, round trip) this gives the stated behaviour; serde\'s own dispatch (JSON escapes, Value path, default visit_* errors) is trusted, not analysed.')
